@@ -247,12 +247,12 @@ pub(crate) fn unit(
                         ));
                     }
 
-                    last = Some(name);
+                    last = Some((name, prefix));
                 }
             }
             OP_POWER => {
                 let (kind, span) = match (last.take(), nodes.next_node()) {
-                    (Some(last), Some(node)) if *node.value() == NUMBER => {
+                    (Some((last, prefix)), Some(node)) if *node.value() == NUMBER => {
                         let span = node.span();
 
                         let power = match str::parse::<i32>(&source[span.range()]) {
@@ -260,7 +260,24 @@ pub(crate) fn unit(
                             Err(error) => return Err(Error::new(*span, BadNumber { error })),
                         };
 
-                        compound.update_power(last, power * current);
+                        // NB: the unit has already been counted once (with the
+                        // current sign), the power only applies to this
+                        // occurrence and not to earlier ones of the same unit.
+                        let rest = power.saturating_sub(1).saturating_mul(current);
+
+                        if rest != 0 {
+                            if let Err(expected) = compound.update(last, rest, prefix) {
+                                return Err(Error::new(
+                                    *span,
+                                    PrefixMismatch {
+                                        unit: source[span.range()].into(),
+                                        expected,
+                                        actual: prefix,
+                                    },
+                                ));
+                            }
+                        }
+
                         continue;
                     }
                     (_, Some(node)) => (*node.value(), *node.span()),
